@@ -38,6 +38,9 @@ FAMILY = "route"
 # --------------------------------------------------------------------------------------------------
 PATHS = {"root": "/", "a": "/a", "ab": "/a/b", "ax": "/a/{x}", "ar": "/a/{*r}", "xb": "/{x}/b", "x": "/{x}"}
 PK = list(PATHS)
+# other spellings of the shapes `ax`, `x`, `ar` (gen_app_extra_route.EXTRA_PATHS); only used by the Q8 / T8 slices
+EXTRA_PATHS = {"ay": "/a/{y}", "y": "/{y}", "as": "/a/{*s}"}
+ALL_PATHS = dict(PATHS, **EXTRA_PATHS)
 MK = ["get", "post", "gp", "any", "foo", "anyns", "gf"]  # gf: GET + custom FOO in one guard
 STD9 = frozenset(["GET", "POST", "PUT", "DELETE", "PATCH", "HEAD", "OPTIONS", "CONNECT", "TRACE"])
 STRUCTS = ["flat", "nest:/p", "nest:/p/{q}", "split:/p", "nest2:/p+/{q}"]
@@ -47,7 +50,10 @@ FBS = ["none", "root", "nested", "both"]
 DOMS = {"none": [], "one": ["a.T"], "lit+param": ["a.T", "{s}.T"], "catch+lit": ["{*s}.T", "a.T"],
         # parameters in an INNER label only (the first label is a literal): two guards that differ in their first label
         # (disjoint), and two that only differ in the parameter name (same hosts: C20 wants them rejected as conflicting)
-        "inner-ok": ["a.{s}.T", "b.{s}.T"], "inner-clash": ["a.{s}.T", "a.{r}.T"]}
+        "inner-ok": ["a.{s}.T", "b.{s}.T"], "inner-clash": ["a.{s}.T", "a.{r}.T"],
+        # ONE domain guard used for two sibling blueprints (`bp.domain("a.t").nest(x); bp.domain("a.t").prefix("/p").nest(y)`),
+        # written the same way twice, or once in relative and once in absolute form (C20: one trailing dot is ignored)
+        "same2": ["a.T", "a.T"], "samedot": ["a.T", "a.T."]}
 MUST_REJECT_DOMS = {"inner-clash": "the two guards match exactly the same hosts (they differ only in the name of a parameter)"}
 REQ_METHODS = ["GET", "POST", "FOO", "DELETE"]
 SEGS = ["a", "b", "p", "zz"]
@@ -63,8 +69,11 @@ PACK_DOMAIN = 8
 JUDGE_BARE_PREFIX = True
 
 
-def T(routes, struct="flat", fb="none", dom="none"):
-    return {"routes": [list(r) for r in routes], "struct": struct, "fb": fb, "dom": dom}
+def T(routes, struct="flat", fb="none", dom="none", mr=None):
+    t = {"routes": [list(r) for r in routes], "struct": struct, "fb": fb, "dom": dom}
+    if mr:
+        t["must_reject"] = mr  # two of its routes can match the same request (same effective pattern shape, common method)
+    return t
 
 
 def valid_table(t):
@@ -151,6 +160,24 @@ def tables_for(tier):
             for dm in ("inner-ok", "inner-clash"):
                 for fb in ("none", "both"):
                     add("Q7:inner-label-parameters", T(rs, "flat", fb, dm))
+        # Q9 one domain guard on two sibling blueprints (same spelling / relative + absolute spelling): the routes of both
+        # are served under that domain; a fallback of the prefixed sibling only answers below its prefix
+        for rs in ([("a", "get"), ("ab", "post")], [("ax", "gp"), ("root", "get")]):
+            for dm in ("same2", "samedot"):
+                for st, fbs_ in (("flat", ("none", "root")), ("split:/p", ("none", "root", "nested1", "both1"))):
+                    for fb in fbs_:
+                        add("Q9:one-domain-two-blueprints", T(rs, st, fb, dm))
+        # Q8 one pattern shape under two spellings (different parameter names): disjoint method guards (no verdict: if accepted, the
+        # server must start and route), a common method (C08: two routes that can match the same request => rejected)
+        same = "both templates denote the same set of paths and share a method"
+        for st in ("flat", "split:/p"):
+            add("Q8:respelled-parameters", T([("ax", "get"), ("ay", "post")], st))
+            add("Q8:respelled-parameters", T([("ar", "get"), ("as", "post")], st))
+            add("Q8:respelled-parameters", T([("ax", "gp"), ("ay", "get")], st, mr=same if st == "flat" else None))
+            add("Q8:respelled-parameters", T([("ar", "get"), ("as", "gp")], st, mr=same if st == "flat" else None))
+        add("Q8:respelled-parameters", T([("ax", "get"), ("y", "post")], "split:/a"))
+        add("Q8:respelled-parameters", T([("ax", "gp"), ("y", "get")], "split:/a", mr=same))
+        add("Q8:respelled-parameters", T([("ax", "get"), ("as", "get")], "flat", mr="`/a/{x}` and `/a/{*s}` both match `/a/<one segment>` and share GET"))
         # Q5 grouping blueprints without prefixes: [nest{r0, S?}, nest{G1?, nest{r1, L1?}}, nest{G2?, nest{r2, L2?}}, R?]
         # every set of <= 3 fallback positions (inside one domain nest, so that the tables can be packed without a
         # path prefix on the chain), and 8 position sets without any domain (served alone)
@@ -180,6 +207,24 @@ def tables_for(tier):
             for st in STRUCTS:
                 for fb in FBS:
                     add("T3:structure-x-fallback", T(rs, st, fb))
+        # T9 one domain guard on two sibling blueprints (same spelling / relative + absolute spelling): the routes of both
+        # are served under that domain; a fallback of the prefixed sibling only answers below its prefix
+        for rs in ([("a", "get"), ("ab", "post")], [("ax", "gp"), ("root", "get")]):
+            for dm in ("same2", "samedot"):
+                for st, fbs_ in (("flat", ("none", "root")), ("split:/p", ("none", "root", "nested1", "both1"))):
+                    for fb in fbs_:
+                        add("T9:one-domain-two-blueprints", T(rs, st, fb, dm))
+        # T8 one pattern shape under two spellings (different parameter names): disjoint method guards (no verdict: if accepted, the
+        # server must start and route), a common method (C08: two routes that can match the same request => rejected)
+        same = "both templates denote the same set of paths and share a method"
+        for st in ("flat", "split:/p"):
+            add("T8:respelled-parameters", T([("ax", "get"), ("ay", "post")], st))
+            add("T8:respelled-parameters", T([("ar", "get"), ("as", "post")], st))
+            add("T8:respelled-parameters", T([("ax", "gp"), ("ay", "get")], st, mr=same if st == "flat" else None))
+            add("T8:respelled-parameters", T([("ar", "get"), ("as", "gp")], st, mr=same if st == "flat" else None))
+        add("T8:respelled-parameters", T([("ax", "get"), ("y", "post")], "split:/a"))
+        add("T8:respelled-parameters", T([("ax", "gp"), ("y", "get")], "split:/a", mr=same))
+        add("T8:respelled-parameters", T([("ax", "get"), ("as", "get")], "flat", mr="`/a/{x}` and `/a/{*s}` both match `/a/<one segment>` and share GET"))
         # T4 domains
         r4 = [[("a", "get"), ("a", "post")], [("ax", "gp"), ("ab", "foo")], [("x", "any"), ("xb", "get")],
               [("root", "anyns"), ("ar", "get")]]
@@ -242,9 +287,11 @@ def nest_op(ops, prefix=None, domain=None):
 
 def table_ops(t, fbs=SINGLE_FBS, tld="t", with_root_fb=True):
     routes = [{"k": "route", "c": h} for h in handler_ids(t)]
-    rootfb = [{"k": "fallback", "c": fbs[0]}] if (t["fb"] in ("root", "both") and with_root_fb) else []
+    rootfb = [{"k": "fallback", "c": fbs[0]}] if (t["fb"] in ("root", "both", "both1") and with_root_fb) else []
 
     def nfb(i):
+        if t["fb"] in ("nested1", "both1"):  # only the SECOND nested blueprint has a fallback of its own
+            return [{"k": "fallback", "c": fbs[1 + i]}] if i == 1 else []
         return [{"k": "fallback", "c": fbs[1 + i]}] if t["fb"] in ("nested", "both") else []
 
     st = t["struct"]
@@ -300,7 +347,7 @@ def pack_group(t):
         return "solo"  # its prefix-only root-level blueprint would cover the paths of the other members of a domain pack
     if t["dom"] == "none":
         return "plain"
-    return "domroot" if t["fb"] in ("root", "both") else "dom"
+    return "domroot" if t["fb"] in ("root", "both", "both1") else "dom"
 
 
 def pack_spec(group, n, members):
@@ -517,7 +564,7 @@ class Model:
                 n.fallback = op["c"]
                 self.fb_node[op["c"]] = n
             elif k == "nest":
-                self._walk(op["bp"], n, prefix + (op.get("prefix") or ""), op.get("domain") or domain, depth + 1,
+                self._walk(op["bp"], n, prefix + (op.get("prefix") or ""), (op.get("domain") or "").rstrip(".") or domain, depth + 1,
                            own=bool(op.get("prefix") or op.get("domain")))
         return n
 
@@ -580,7 +627,7 @@ def expect(model, method, path, host):
     # a blueprint nested without prefix and domain covers nothing by itself (Blueprint::fallback, "Nesting without
     # prefix": its fallback only serves method mismatches on its own routes)
     compat = [n for n in model.nodes if n.domain in (None, dom) and n.own]
-    covering = sorted([(n, cover(n, rsegs)) for n in compat if cover(n, rsegs)], key=lambda x: -x[0].depth)
+    covering = sorted([(n, cover(n, rsegs)) for n in compat if cover(n, rsegs)], key=lambda x: (-x[0].depth, -len(x[0].psegs)))  # innermost = deepest, then longest prefix (siblings of one domain)
     info = {}
     if not groups:
         kind = "nomatch"
@@ -609,7 +656,11 @@ def expect(model, method, path, host):
         if dom is not None:
             # the selected domain's nest does not cover the path with its prefix: "prefix/domain covers" can be
             # read either way (the guide only says that the top-level fallback serves requests no guard matches)
+            # (not when ANOTHER blueprint of the same domain covers the path: then that one answers)
+            dom_covered = any(n.domain == dom and cover(n, rsegs) for n in compat)
             for n in sorted(compat, key=lambda n: -n.depth):
+                if dom_covered:
+                    break
                 if n.domain == dom and not cover(n, rsegs):
                     alts.append((("f", n.applicable_fb()[0], frozenset()), "domain-covers-but-prefix-does-not"))
                     tags.append("domain-covers-but-prefix-does-not")
@@ -1045,7 +1096,7 @@ def replay_spec(spec, reqs):
 
 def describe_table(t):
     rs = ", ".join(f"{'+'.join(M.cat(h)['methods']) if isinstance(M.cat(h)['methods'], list) else M.cat(h)['methods']} "
-                   f"{PATHS[pk]}" for (pk, mk), h in zip(t["routes"], handler_ids(t)))
+                   f"{ALL_PATHS[pk]}" for (pk, mk), h in zip(t["routes"], handler_ids(t)))
     return f"routes[{rs}] structure={t['struct']} fallback={t['fb']} domains={t['dom']}"
 
 
@@ -1261,6 +1312,11 @@ def oracle_c07(obs, rep, tier):
                         rep.violation("route:conflicting-domain-guards-accepted",
                                       f"{describe_table(t0)}: pavexc accepted the blueprint although {MUST_REJECT_DOMS[t0['dom']]}: "
                                       f"{[d for d in DOMS[t0['dom']]]} (C20: two guards that can match the same host are rejected as conflicting)",
+                                      {"oracle": "C07", "spec": replay_spec(s, []), "tables": [t0]})
+                    if g["exit"] == 0 and t0.get("must_reject"):
+                        rep.violation("route:overlapping-routes-accepted:" + "+".join(f"{a}.{b}" for a, b in t0["routes"]) + ":" + t0["struct"],
+                                      f"{describe_table(t0)}: pavexc accepted the blueprint although {t0['must_reject']} "
+                                      f"(C08: two routes that can match the same request are rejected)",
                                       {"oracle": "C07", "spec": replay_spec(s, []), "tables": [t0]})
                     if g["exit"] != 0:
                         if g.get("timed_out"):
